@@ -22,7 +22,8 @@ Extracted:
                    MemoryCacheEntryInner::new (access_count start) / is_expired comparison;
                    the cleanup task (shared map + counters, remove_if, counter updates)
   disk_cache.rs    put_with_ttl counter updates; size() scan condition; is_expired comparison;
-                   cache_stats miss_count expression
+                   cache_stats miss_count expression; the cleanup task (shared counters, removal
+                   loop, counter updates)
   config.rs        MemoryCacheConfig::validate and DiskCacheConfig::validate clauses
 """
 import os, re, sys
@@ -316,6 +317,20 @@ def translate():
     w(f"def disk_insert_new (count usage : Int) (size : Nat) : Int × Int := (count {cs} {cn}, usage {bs} (size : Int))")
     if not re.match(r"^letstart_time=Instant::now\(\);letsize_bytes=value\.len\(\);letfile_path=self\.get_file_path\(&key\);self\.write_file\(&file_path,&value\)\.await\?;", pw):
         raise TranslationError("DiskCache::put_with_ttl: the file is not written before the index update")
+    dct = strip(fn_body(disk_raw, "start_cleanup_task"))
+    m = one(r"^letindex=Arc::clone\(&self\.index\);letmetrics=Arc::clone\(&self\.metrics\);letconfig=self\.config\.clone\(\);"
+            r"letentry_count=(.*?);letdisk_usage=(.*?);lethandle=", dct, "DiskCache::start_cleanup_task: captured state")
+    w("/-- the disk cleanup task adjusts the cache's own entry counter / usage counter (`Arc::clone(&self.…)`) -/")
+    w("def disk_cleanup_shares : List Bool := [" + ", ".join("true" if g == f"Arc::clone(&self.{n})" else "false"
+                                                               for g, n in zip(m.groups(), ["entry_count", "disk_usage"])) + "]")
+    one(r"for\(key,entry\)inindex_guard\.iter\(\)\{ifentry\.is_expired\(\)\{entries_to_remove\.push\(key\.clone\(\)\);\}", dct, "disk cleanup task: expired entries collected")
+    one(r"ifletSome\(entry\)=index_guard\.remove\(key\)\{ifletErr\(e\)=fs::remove_file\(&entry\.file_path\)\{eprintln!\(.*?\);\}"
+        r"else\{removed_count\+=1;freed_bytes\+=entry\.size_bytesasu64;\}\}", dct, "disk cleanup task: removal loop")
+    m = one(r"ifremoved_count>0\{entry_count\.fetch_(add|sub)\(removed_count,Ordering::Relaxed\);disk_usage\.fetch_(add|sub)\(freed_bytes,Ordering::Relaxed\);", dct,
+            "disk cleanup task: counter updates")
+    sign = {"add": "+", "sub": "-"}
+    w("/-- disk cleanup task, after a pass that deleted `removed` files of `freed` bytes: new `(entry_count, disk_usage)` -/")
+    w(f"def disk_cleanup_removed (count usage : Int) (removed freed : Nat) : Int × Int := (count {sign[m.group(1)]} (removed : Int), usage {sign[m.group(2)]} (freed : Int))")
     sz = strip(fn_body(disk_raw, "size", within=r"impl<K: CacheKey \+ 'static> AsyncCache<K> for DiskCache<K> \{"))
     m = one(r"^letindex_size=self\.entry_count\.load\(Ordering::Relaxed\);ifindex_size" + CMP + r"([0-9_]+)&&self\.config\.cache_dir\.exists\(\)\{"
             r"letmutfile_count=0;self\.count_cache_files\(&self\.config\.cache_dir,&mutfile_count\)\?;Ok\(file_count\)\}else\{Ok\(index_size\)\}$", sz, "DiskCache::size")
